@@ -335,6 +335,8 @@ func checkC02(c *Ctx, r *Report) {
 	// C02.g the routes generator sees the route list validation accepted
 	ruleNoIRMutation(c, r, "C02.g")
 	checkContextPassThrough(c, r, "C02.g")
+	// served minus documented = the @Hidden routes: what counts as hidden is decided in one place
+	checkHiddenSemantics(c, r, "C02.g")
 	// the routes the routers are generated from are collected by the visitors: same inventories as C01
 	ruleSkipInventory(c, r, "C02.g", loadSkipTable(c.VerifDir), 6, "core/visitors", "core/metadata", "core/pipeline")
 	ruleEarlyExitInventory(c, r, "C02.g", 10, "core/visitors", "core/metadata")
